@@ -5,6 +5,8 @@ from harness import common
 
 
 def main():
+    import logging
+    logging.disable(logging.WARNING)          # odak logs every kernel request at WARNING level
     ap = argparse.ArgumentParser()
     ap.add_argument('prop')
     ap.add_argument('--tier', default=None)
